@@ -60,7 +60,7 @@ macro "munfold" : tactic => `(tactic| simp only [bind, Except.bind, Except.map, 
 
 macro "splitall" : tactic => `(tactic| repeat (any_goals msplit1))
 
-macro "gen_fin" : tactic => `(tactic| first | rfl | (with_unfolding_all rfl) | (intro h; cases h; first | done | rfl | (simp; done)) | (simp_all; done) | (simp_all [List.head?_eq_getElem?]; done) | (intros; simp_all; done))
+macro "gen_fin" : tactic => `(tactic| first | rfl | (with_unfolding_all rfl) | (intro h; cases h; first | done | rfl | (simp; done)) | (simp_all; done) | omega | (exfalso; omega) | (simp_all [List.head?_eq_getElem?]; done) | (intros; simp_all; done))
 
 /-- close a tie obligation: unfold the plumbing, split every innermost scrutinee, finish by simplification -/
 macro "gen_tie" : tactic => `(tactic| ((try munfold); (try splitall); all_goals gen_fin))
